@@ -300,6 +300,8 @@ def run_tlc(module, cfg, name, workers=8, timeout=900, env=None, simulate=None, 
         raise ToolError("TLC %s timed out after %ss (log %s)" % (name, timeout, logp))
     # TLC exit codes: 0 ok, 12 safety violation, 13 liveness, 10/11 assumption/deadlock, others = errors
     res.ok = rc == 0
+    if rc == 13 and res.violated is None:
+        res.violated = "temporal property"
     if rc != 0 and res.violated is None and res.rejected is None:
         tail = subprocess.run(["tail", "-n", "30", logp], stdout=subprocess.PIPE, text=True).stdout
         raise ToolError("TLC %s failed with exit %s (log %s):\n%s" % (name, rc, logp, tail))
@@ -349,10 +351,10 @@ def validate_trace(module, trace_path, name, cfg=None, timeout=900, max_rejectio
         line = r.rejected.get("line", 1)
         # run boundaries
         start = line - 1
-        while start > 0 and cur[start].get("ev") != "Reset":
+        while start > 0 and cur[start].get("ev") not in ("Reset", "Begin"):
             start -= 1
         end = line
-        while end < len(cur) and cur[end].get("ev") != "Reset":
+        while end < len(cur) and cur[end].get("ev") not in ("Reset", "Begin"):
             end += 1
         rejections.append({"line": offset + line, "event": r.rejected.get("event"), "run": cur[start:end],
                            "state": r.rejected.get("state")})
